@@ -1,6 +1,7 @@
 """C18 — the matplotlib artist of a region depicts the region."""
 import json
 import math
+import os
 import warnings
 from fractions import Fraction
 
@@ -1078,8 +1079,8 @@ def d_kind(d):
 
 class Check(PropertyCheck):
     id = 'C18'
-    lean_targets = ['RegionsVerif.Props.C18', 'RegionsVerif.Bridge.InlineGlueC18']
-    namespaces = ['RegionsVerif.Props.C18', 'RegionsVerif.Bridge.InlineGlueC18']
+    lean_targets = ['RegionsVerif.Props.C18', 'RegionsVerif.Bridge.InlineGlueC18', 'RegionsVerif.Props.C18Bezier']
+    namespaces = ['RegionsVerif.Props.C18', 'RegionsVerif.Bridge.InlineGlueC18', 'RegionsVerif.Props.C18B']
 
     def _inline_glue(self):
         # tie T: normal forms of the glue methods (tools/inlineglue.py, group C18)
@@ -1091,7 +1092,35 @@ class Check(PropertyCheck):
         return mod.main(['C18'])
 
     def translate(self):
-        return self._inline_glue()
+        return self._inline_glue() + self._bezier_constants()
+
+    @staticmethod
+    def _bezier_constants():
+        """tie on the constants of Props/C18Bezier.lean: its control-point table is matplotlib's `Path.unit_circle()`
+        (8 cubic Beziers, codes MOVETO + 24 x CURVE4 + CLOSEPOLY) to 1e-8 - the theorem `seg_radial_perturbed`
+        covers control points within that distance of the ideal ones."""
+        import math
+        import re
+        from .common import VERIF
+        try:
+            from matplotlib.path import Path
+            src = open(os.path.join(VERIF, 'lean', 'RegionsVerif', 'Props', 'C18Bezier.lean')).read()
+            env = {'H': math.sqrt(0.5), 'MAGIC': 2652031 / 10000000}
+
+            def table(name):
+                body = re.search(r'def %s : Nat → ℝ\n((?:  \|.*\n)+)' % name, src).group(1)
+                d = {int(k): eval(e, {}, env) for k, e in re.findall(r'\| (\d+) => ([^|\n]+)', body)}
+                return [d[i] for i in range(25)]
+            lean = np.array(list(zip(table('vx'), table('vy'))))
+            mpl = Path.unit_circle()
+            if list(mpl.codes) != [1] + [4] * 24 + [79] or not np.array_equal(mpl.vertices[25], mpl.vertices[0]):
+                return ['Path.unit_circle() is no longer MOVETO + 24 x CURVE4 + CLOSEPOLY (C18Bezier models 8 cubic segments)']
+            worst = float(np.abs(lean - mpl.vertices[:25]).max())
+            if not worst < 1e-8:
+                return [f'control points of Props/C18Bezier.lean differ from Path.unit_circle() by {worst}']
+        except Exception as e:
+            return [f'C18Bezier constants could not be compared with matplotlib: {type(e).__name__}: {e}']
+        return []
     level = 'proof'
     parallel = True
     rule = ('circle, ellipse, rectangle, polygon (simple and self-intersecting), regular polygon and the three annuli x sizes 1e-3..1e6 '
